@@ -162,7 +162,7 @@ fn gen_case(rng: &mut Rng, i: usize) -> Value {
             3 => route.clone(),                                                   // equal
             4 => if rl < fam {                                                    // more specific
                 let l = rl + 1 + rng.below((fam - rl) as u64) as usize;
-                route.extend(rng, if rng.chance(1, 2) { rl + 1 } else { l })
+                { let to = if rng.chance(1, 2) { rl + 1 } else { l }; route.extend(rng, to) }
             } else { route.clone() },
             5 | 6 => if rl > 0 {                                                  // sibling / differs in one bit
                 let l = 1 + rng.below(rl as u64) as usize;
@@ -452,6 +452,10 @@ fn run_input(ctx: &mut Ctx, fx: &mut Fixtures, input: &Value) {
 
     let observed = match observed {
         Ok(o) => o,
+        Err(e) if e.starts_with("transport:") => {
+            ctx.count("http-transport-error");
+            return
+        }
         Err(e) => {
             // The glue refused or garbled a well-formed request: the route's
             // state was not reported at all.
